@@ -99,6 +99,18 @@ func (v *StructSchema) process(ctx *p.SchemaCtx) {
 		}
 		dataProv = newDp
 	}
+	// the records nested in a source are read with that source's struct tag (json, ...): the root
+	// provider announces it, the providers derived from nested raw values take it over
+	if tagged, ok := dataProv.(interface {
+		SourceTag() *string
+		SetSourceTag(*string)
+	}); ok {
+		if tag := tagged.SourceTag(); tag != nil {
+			ctx.SetSourceTag(tag)
+		} else if tag := ctx.SourceTag(); tag != nil {
+			tagged.SetSourceTag(tag)
+		}
+	}
 
 	// 3. Process / validate struct fields
 	structVal := reflect.ValueOf(ctx.ValPtr).Elem()
